@@ -3,7 +3,7 @@
 # Prints one line per patch: CLEAN or the rules that raised an alarm (candidates for false alarms, to be triaged).
 set -u
 cd /verif
-WT=/tmp/wt/scratch
+export WT=${REFWT:-/tmp/wt/scratch}
 (cd /verif/checker && GOFLAGS=-mod=mod GOPROXY=off go build -o /verif/.bin/sialint-ref ./cmd/sialint) || exit 2
 [ -d $WT ] || git -C /repo worktree add -q --detach $WT HEAD
 PROPS=$(python3 -c "import json;print(' '.join(c['property_id'] for c in json.load(open('/verif/MANIFEST.json'))['checks']))")
@@ -11,7 +11,7 @@ DIRS=${@:-$(ls -d /verif/refactors/*/r* 2>/dev/null)}
 for d in $DIRS; do d=$(realpath $d)
   git -C $WT checkout -q --detach $(git -C /repo rev-parse HEAD); git -C $WT checkout -q -- .; git -C $WT clean -fdq
   if ! git -C $WT apply $d/patch.diff 2>/dev/null; then echo "$d: PATCH-DOES-NOT-APPLY"; continue; fi
-  alarms=$(echo $PROPS | tr ' ' '\n' | xargs -P 10 -I{} sh -c '/verif/.bin/sialint-ref -property {} -repo '$WT' -out /tmp/ev-scratch-{} | grep -o "^\(FINDING\|UNDECIDED\) rule=[A-Z0-9.a-z]*" | sed "s/ rule=/:/" | sort -u' | sort -u | tr '\n' ' ')
+  alarms=$(echo $PROPS | tr ' ' '\n' | xargs -P 10 -I{} sh -c '/verif/.bin/sialint-ref -property {} -repo '$WT' -out /tmp/ev-$(basename $WT)-{} | grep -o "^\(FINDING\|UNDECIDED\) rule=[A-Z0-9.a-z]*" | sed "s/ rule=/:/" | sort -u' | sort -u | tr '\n' ' ')
   if [ -z "$alarms" ]; then echo "$d: CLEAN"; else echo "$d: ALARM $alarms"; fi
 done
 git -C $WT checkout -q -- .
